@@ -7,7 +7,8 @@ LEVEL = "other"
 KEYS = ["GPR._eval_gpr", "GPR.eval", "Reaction.functional@getter"]
 # the tree-walking visitor classes (contracts/c08_visitors.py; hook table V.HOOKS: child lists as heap state)
 VISITOR_KEYS = ["_GeneRemover.visit_Name", "_GeneRemover.visit_BoolOp",
-                "GPRWalker.visit_Name", "GPRWalker.visit_BoolOp", "GPR.update_genes", "GPR.genes@getter/proved"]
+                "GPRWalker.visit_Name", "GPRWalker.visit_BoolOp", "GPR.update_genes", "GPR.genes@getter/proved",
+                "GPR._symbolic_gpr", "GPR.as_symbolic", "GPR.__eq__", "GPRCleaner.visit_BinOp"]
 
 
 def run(rep):
@@ -28,7 +29,15 @@ def run(rep):
         "Name nodes occurring in the tree (nothing when the rule has no body); lemma steps: the value of a rule depends only on the "
         "absent genes among names(tree), and only on the heap below the node. Assumed per visitor class: generic_visit (children "
         "visited in order / child list replaced by the non-None results; carries the induction hypothesis and the disjointness of "
-        "sibling sub-trees) and the dispatch of visit."),
+        "sibling sub-trees) and the dispatch of visit. Symbolic form: GPR._symbolic_gpr (every kind of node, with a symbol table "
+        "mapping each name of the tree to Symbol(name), and the first call that builds that table from GPR.genes) and GPR.as_symbolic "
+        "(no display names) are proved to return, for a rule with a body, an expression whose Boolean value equals the rule's for "
+        "every set of absent genes, and exactly Symbol('') for a rule without body - relative to the ASSUMED meaning of sympy's "
+        "Symbol / Or / And; GPR.__eq__ is proved to return True only for logically equivalent rules, relative to the ASSUMED "
+        "soundness of sympy's `equals` and structural `==` of Symbols. GPRCleaner.visit_BinOp (the `&` / `|` spelling) is proved to "
+        "return a NEW BoolOp node with an And node for `&` and an Or node for `|` whose `values` is a LIST (precondition of the assumed "
+        "constructor contract: a tuple there is rejected) holding exactly the cleaned left and right operand in this order, so that its "
+        "value is their conjunction / disjunction, and to raise TypeError for every other operator."),
         more=[(VISITOR_KEYS, V.HOOKS)], lemmas=V.all_lemmas,
         trusted=["ast.parse / re / sympy (assumed)", "rule trees are finite and acyclic",
                  "ast.NodeVisitor.visit dispatches on the node's class name to visit_<Class> or generic_visit (assumed contracts "
@@ -36,7 +45,12 @@ def run(rep):
                  "ast.NodeTransformer.generic_visit / ast.NodeVisitor.generic_visit on a BoolOp node of a rule TREE (sibling sub-trees "
                  "disjoint), including the induction hypothesis for the children (assumed contracts _GeneRemover.generic_visit / "
                  "GPRWalker.generic_visit)",
-                 "GPRWalker() creates a visitor with an empty gene_set; copy.deepcopy of a set of strings is an equal set"])
+                 "GPRWalker() creates a visitor with an empty gene_set; copy.deepcopy of a set of strings is an equal set",
+                 "object allocation ast.BoolOp(op, values) / ast.And() / ast.Or(): a new node that is no child of an existing node, "
+                 "class tag and operator fixed at construction (assumed contracts); NodeTransformer.generic_visit on a BinOp node "
+                 "replaces left / right by nodes (assumed contract GPRCleaner.generic_visit)",
+                 "sympy: Symbol(k) is true iff k is not absent, Or(*es) / And(*es) mean some / all of es (whatever simplification they "
+                 "apply), a.equals(b) is True only for logically equivalent a, b, `==` of two Symbols is structural (assumed)"])
 
 
 def replay(payload):
